@@ -275,15 +275,28 @@ theorem invloopCore_spec (table : List Nat) (resetPos : Bool) (st : InvState) (l
   have hp0' : 0 ≤ pos0 := by subst hp0; split <;> omega
   simp only
   split
-  · rename_i hcond
-    refine ⟨by simp only; split <;> omega, ?_⟩
-    intro i hi
-    cases canStore
-    · simp at hi
-    · simp only [if_true, Option.some.injEq] at hi
-      refine ⟨hcond.1, ?_⟩
-      intro h1; subst hi
-      split <;> omega
+  · split
+    · exact ⟨hp0', by simp⟩
+    · rename_i hlen
+      refine ⟨by simp only; split <;> omega, ?_⟩
+      intro i hi
+      cases canStore
+      · simp at hi
+      · simp only [if_true, Option.some.injEq] at hi
+        refine ⟨by omega, ?_⟩
+        intro h1; subst hi
+        split <;> omega
   · exact ⟨hp0', by simp⟩
+
+/-- the counter stays in `[0, 128)` when no table entry exceeds 128 -/
+theorem invloopCore_count (table : List Nat) (resetPos : Bool) (st : InvState) (lps len : Int) (canStore : Bool)
+    (ht : table.getD st.speed 0 ≤ 128) (h0 : 0 ≤ st.count) (h1 : st.count < 128) :
+    0 ≤ (invloopCore table resetPos st lps len canStore).1.count ∧
+    (invloopCore table resetPos st lps len canStore).1.count < 128 := by
+  unfold invloopCore
+  simp only
+  split
+  · split <;> simp
+  · simp only; omega
 
 end Xmp.Wrap
